@@ -106,3 +106,71 @@ def step_result_single(u):
     u.ensure(nx.dtype == "float32" and nx.cell is xn.cell or nx.dtype == "float32", "next_iterate.x_is_float32")
     u.ensure(QAll(n, lambda j: z3.And(lbv.f(j) <= V(nx).f(j), V(nx).f(j) <= ubv.f(j))), "next_iterate_inside_the_working-precision_bounds")
     u.cover("end")
+
+
+@unit("C11.eval.astype", ["C11", "C05"], ["pygradflow.eval.astype"], config={"max_paths": 50, "single_precision": True})
+def eval_astype(u):
+    """the evaluators' dtype conversion never changes the caller's object: same dtype -> the object itself is handed
+    on (no store), other dtype (single precision) -> a NEW array / matrix; nothing is stored into the caller's data"""
+    from pyvc import matmodel
+    from pyvc.values import Mat
+
+    from .c04_transform import StoreLog
+
+    n = u.int("n")
+    u.assume(n >= 1)
+    kind = u.path.choose_n(4, "vector / COO / CSR / CSC")
+    single = u.path.choose("convert to float32")
+    dt = Opaque("dtype:float32") if single else Opaque("dtype:float64")
+    log = StoreLog(u)
+    if kind == 0:
+        a = u.vec("g_user", n, region="USER")
+    else:
+        fmt = ["coo", "csr", "csc"][kind - 1]
+        a = matmodel.user_matrix(u.it, n, n, "J_user", fmt=fmt)
+        a.region = "USER"
+    r = u.call("pygradflow.eval.astype", a, dt)
+    log.check()
+    if not single:
+        u.ensure(r is a, "same_dtype:the_object_itself_is_returned")
+    else:
+        u.ensure(r is not a, "other_dtype:a_new_object_is_returned")
+        if kind == 0:
+            u.ensure(r.cell is not a.cell and r.dtype == "float32", "other_dtype:new_float32_array")
+        else:
+            u.ensure(getattr(r, "region", None) != "USER", "other_dtype:new_matrix_shares_nothing_with_the_caller's")
+    u.cover("end")
+
+
+@unit("C05.Transformation.start[single precision]", ["C05", "C06"], ["pygradflow.transform.Transformation.create_transformed_iterate", "pygradflow.transform.Transformation.trans_problem"], config={"max_paths": 100, "single_precision": True, "implicit_props": ["C05", "C06"]})
+def start_single(u):
+    """single precision, no constraints rows with slacks involved in this statement: the start iterate is the user's
+    in-box x0 rounded to float32, and it lies inside the working-precision bounds (rounding is monotone and the
+    working bounds are the rounded user bounds)"""
+    from .c04_slacks_general import SlackStartLoop, slack_contract, CP
+
+    params = mk_params(u)
+    params.fields["precision"] = u.enum("pygradflow.params.Precision", "Single")
+    user = mk_problem(u, name="user")
+    n, m = user.fields["__n__"], user.fields["num_cons"]
+    u.it.abstract["pygradflow.eval.create_evaluator"] = lambda it, problem, params_: Opaque("evaluator")
+    from .c04_transform import UserProblem
+
+    up = UserProblem(u, user)
+    h = slack_contract(u)
+    u.it.loop_specs[CP + "transform_sol/loop#0"] = SlackStartLoop(u, h)
+    tr = u.construct("pygradflow.transform.Transformation", user, params)
+    tp = tr.fields["trans_problem"]
+    ulb, uub = V(user.fields["var_lb"]), V(user.fields["var_ub"])
+    x0 = u.vec("x0", n, region="USER")
+    u.path.add_ufact(UFact(1, lambda j: z3.And(ulb.f(j) <= V(x0).f(j), V(x0).f(j) <= uub.f(j)), [(0, n)], "requires:in_box(x0)"))
+    y0 = u.vec("y0", m, region="USER")
+    itx = u.method(tr, "create_transformed_iterate", x0, y0)
+    xi = itx.fields["x"]
+    tlb, tub = V(tp.fields["var_lb"]), V(tp.fields["var_ub"])
+    xv = V(xi)
+    N = xv.n
+    u.ensure(xi.dtype == "float32" and itx.fields["y"].dtype == "float32", "start_iterate_is_held_in_float32")
+    u.ensure(QAll(N, lambda j: z3.And(tlb.f(j) <= xv.f(j), xv.f(j) <= tub.f(j))), "start_iterate_inside_the_working-precision_bounds(variables_and_slacks)")
+    u.ensure(QAll(n, lambda j: xv.f(j) == npmodel.rd32(u.it, V(x0).f(j))), "start_x==x0_rounded_to_float32")
+    u.cover("end")
